@@ -19,7 +19,7 @@ CONSTANTS Side,        \* "r" | "w"
           MaxLim,      \* limits 0..MaxLim
           MaxSteps
 
-Sizes == {0, 1, 2, 3, 5, -1, -2}
+Sizes == {0, 1, 2, 3, 4, 5, 8, -1, -2}
 ROps == {"ensure", "r1", "rn", "skip", "pad"}
 WOps == {"prepare", "w1", "wn", "skipw", "padw"}
 SrcOf(n) == [i \in 1..n |-> 16 + i]
